@@ -222,11 +222,13 @@ fn main() {
                     if lines.is_empty() {
                         continue;
                     }
+                    // "# settled": the script ends with every gate released and every timer fired
+                    let want_settled = text.lines().any(|l| l.trim() == "# settled");
                     let erase = if args.erase { Some(args.seed) } else { None };
                     let mut i = 0;
                     let ro = world::run_with(|_| { let l = lines.get(i).cloned(); i += 1; l }, erase);
                     reals.push(ro.canon);
-                    raws.push((ro.raw, false));
+                    raws.push((ro.raw, want_settled && ro.settled));
                     oracles.push(ro.oracle);
                     scripts.push((format!("corpus:{}", p.file_name().unwrap().to_string_lossy()), lines));
                     erase_of.push(erase);
